@@ -242,7 +242,9 @@ def entries : List Entry := [
       pure ("ok " ++ " ".intercalate (List.replicate k (toHex (Spec.frame m.header c)))) },
   -- Message.Unmarshal
   { kind := "M", op := "c03.msg.unmarshal", run := fun
-      | [x, sp] => do
+      -- an optional third token describes what was done to the Message object beforehand: the
+      -- decoding of a byte string does not depend on it
+      | x :: sp :: _ => do
         let b ← fromHex x
         let specific ← outcomeArg sp
         pure (showOutcomeWith (fun (d : Decoded) =>
@@ -250,7 +252,9 @@ def entries : List Entry := [
           (msgUnmarshal b specific))
       | _ => none },
   { kind := "S", op := "c03.msg.unmarshal", run := fun
-      | [x, sp] => do
+      -- an optional third token describes what was done to the Message object beforehand: the
+      -- decoding of a byte string does not depend on it
+      | x :: sp :: _ => do
         let b ← fromHex x
         let specific ← outcomeArg sp
         pure (match specDecodeHeader b with
